@@ -227,7 +227,7 @@ func checkC09(tier string) *Report {
 			rep.Count("probes", 1)
 			psig := sigBase + " ; probe " + p.Label
 			pkt := p.Pkt
-			replay := mustJSON(map[string]any{"ops": append(n.Ops(alpha), Op{Label: p.Label, Pkt: &pkt}), "note": "i: probes need the instrumented stand"})
+			replay := mustJSON(map[string]any{"ops": append(n.Ops(alpha), Op{Label: p.Label, Pkt: &pkt}), "note": "i: probes need the instrumented stand (the generic replay uses the app's own stack)"})
 			if r.Panic != "" {
 				rep.Violate(Violation{Kind: "probe-panic", Group: p.Label, Sig: psig, Replay: replay, What: "probe panicked: " + r.Panic})
 				continue
@@ -433,7 +433,8 @@ func checkC18(tier string) *Report {
 			rep.Count("probes", 1)
 			psig := fmt.Sprintf("%s ; probe %s (limit %d)", sigBase, p.label, limit)
 			pkt := p.pkt
-			replay := mustJSON(map[string]any{"ops": append(append([]Op{}, pathOps...), Op{Label: p.label, Pkt: &pkt})})
+			replay := mustJSON(map[string]any{"ops": append(append([]Op{}, pathOps...), Op{Label: p.label, Pkt: &pkt}),
+				"expect": []replayExpect{{Kind: "no_panic", Want: true}, {Kind: "last_success", Want: uint64(p.n) <= uint64(limit) && len(p.pkt.Memo) <= 32768}}})
 			if r.Panic != "" {
 				rep.Violate(Violation{Kind: "probe-panic", Group: p.label, Sig: psig, Replay: replay, What: "probe panicked: " + r.Panic})
 				continue
